@@ -71,7 +71,7 @@ Proof.
 Qed.
 
 Lemma overwrite_empty d : overwrite [] 0 d = d.
-Proof. unfold overwrite. simpl. rewrite skipn_nil, app_nil_r. reflexivity. Qed.
+Proof. destruct d; [reflexivity|]. unfold overwrite, overwrite_at. simpl. rewrite app_nil_r. reflexivity. Qed.
 
 (* a regular file and another place whose parent is a directory: unless they are the same place,
    neither is above the other *)
@@ -117,7 +117,8 @@ Qed.
 
 Lemma overwrite_at_end c k d : (k <= length c)%nat -> overwrite (firstn k c) k d = firstn k c ++ d.
 Proof.
-  intro H. unfold overwrite. rewrite firstn_length, Nat.min_l by auto.
+  intro H. destruct d as [|x d0]; [rewrite app_nil_r; reflexivity|]. rewrite overwrite_nonempty. set (d := x :: d0).
+  unfold overwrite_at. rewrite firstn_length, Nat.min_l by auto.
   rewrite (firstn_all2 (n := k) (firstn k c)) by (rewrite firstn_length; lia).
   rewrite Nat.sub_diag. simpl. rewrite skipn_all2 by (rewrite firstn_length; lia). rewrite app_nil_r. reflexivity.
 Qed.
